@@ -1,5 +1,6 @@
 import Driver.Util
 import SuitVerif.IHexWrite
+import SuitVerif.IHexImage
 open Lean SuitVerif SuitVerif.IHex
 namespace Driver.IHexOps
 
@@ -15,6 +16,13 @@ def handle (op : String) (j : Json) : Option (M Json) :=
   | "ihex.write" => some do
       -- the writer model (one block of data): the text `intelhex` is expected to write for it
       pure (okJ (Json.str (writeText (← natField j "address") (← hexField j "data"))))
+  | "ihex.write_image" => some do
+      -- the writer model for a whole image given as [[address, hex] ...] (canonical: as `ihex.read` returns it)
+      let segs ← (← arrField j "image").mapM (fun (e : Json) => do
+        match e with
+        | .arr #[a, b] => pure ((← asNat a), (← asHex b))
+        | _ => throw "image: [address, hex] expected")
+      pure (okJ (Json.str (writeImageText segs)))
   | _ => none
 
 end Driver.IHexOps
